@@ -137,7 +137,8 @@ CLAIMED = {
    design="4/C10"),
  "C02": dict(
    text="spec/Lineage.tla models registry, config, the per-context plugin cache exactly as the code keys it (context hash = config + "
-        "registered versions), lineage keys and shared storage; TLC explores all histories up to a bound over {set_config, register "
+        "registered versions), lineage keys and shared storage for four data types (src <- mid <- top, mid <- kid) with per-plugin tracked "
+        "options, an untracked option, an option shared by three plugins and a child plugin whose child option replaces its parent's option; TLC explores all histories up to a bound over {set_config, register "
         "(class variants), new_context, set fuzzy_for / fuzzy_for_options, get, key_for} and checks NoStaleRead (a get returns what a "
         "brand-new context would compute), FuzzyAccepts (under fuzzy matching stored data is accepted exactly when its lineage differs "
         "only in the fuzzy parts, exact match preferred), NothingWrittenUnderFuzzy, "
@@ -148,7 +149,7 @@ CLAIMED = {
         "invariants after every event). Key stability across hash seeds and insertion orders is tested in child processes on every "
         "lineage reached and on container-valued options.",
    note="Trusted: TLC; harness plugins whose output encodes (class name+version, effective tracked option, input provenance). "
-        "Child options and options shared between plugins are not modelled (every option belongs to one plugin). Hash-seed independence is decided by the conformance step, not TLC.",
+        "strax refuses two registered plugins with different defaults for one option, so the shared / inherited options have one default. Hash-seed independence is decided by the conformance step, not TLC.",
    technique="TLA+ model checking over histories + TLC trace validation of histories executed on real Contexts",
    design="4/C02"),
  "C03": dict(
